@@ -87,9 +87,9 @@ def run(ctx):
     vlib.build_harness(["c14"])
     quick = tier == "quick"
     seed = ctx.seed
-    genv = {"SEED": seed, "MAXEXH": 6, "MAXPROD": 256, "SKMAXPROD": 4096, "NMIX": 4 if quick else 8,
-            "GENSTRIDE": 48 if quick else 1, "GENPHASE": seed % 48 if quick else 0}
-    menv = {"MODELSTRIDE": 3 if quick else 1, "MODELPHASE": seed % 3 if quick else 0}
+    genv = {"SEED": seed, "MAXEXH": 6, "MAXPROD": 256, "SKMAXPROD": 1024 if quick else 4096, "NMIX": 4 if quick else 8,
+            "GENSTRIDE": 64 if quick else 1, "GENPHASE": seed % 64 if quick else 0}
+    menv = {"MODELSTRIDE": 5 if quick else 1, "MODELPHASE": seed % 5 if quick else 0}
     replay_case = None
     if ctx.replay:
         replay_case = json.load(open(ctx.replay))["replay"]
@@ -137,20 +137,17 @@ def run(ctx):
         ev.add("states", v.distinct)
         ev.add("transitions", v.generated)
         ev.add("traces_validated_against_impl", len(precs))
-        spec_wrong = []
         for rej in dedupe(v.records):
             rec = precs[rej["rec"] - 1]
-            if rej["legal"]:
-                # a form the grammar rule calls legal is read differently by the real parser
-                forms = sorted({kind_opt(k, x) for k, x in diff_keys(rec["ch"]).items()})
-                verdicts.add("C14|tree-differs|skeleton|%s" % "+".join(forms),
-                             "real parser reads %r as %s, the core is %s" % (rec["src"], rec["got"], rec["core"]),
-                             {"kind": "parse", "case": pcases[rej["rec"] - 1], "source": rec["src"], "got": rec["got"]})
-            else:
-                spec_wrong.append((rec["src"], rej["expect"], rec["got"]))
-        if spec_wrong:
-            vlib.tool_error("the reference parser of SyltSurface disagrees with the real parser on %d illegal renderings, e.g. %r: model %s, real %s"
-                            % (len(spec_wrong), spec_wrong[0][0], spec_wrong[0][1], spec_wrong[0][2]))
+            # The reference parser is the specification (it equals the real parser on the whole universe of the unchanged
+            # tree, legal and illegal renderings alike): a rendering the real parser reads differently is a violation.
+            # legal: a form the grammar rule calls meaning-preserving is read as something else / rejected;
+            # illegal: the grammar itself moved (what such a text means, or whether it is an error, changed).
+            forms = sorted({kind_opt(k, x) for k, x in diff_keys(rec["ch"]).items()})
+            cls = "skeleton" if rej["legal"] else "skeleton-illegal-form"
+            verdicts.add("C14|tree-differs|%s|%s" % (cls, "+".join(forms)),
+                         "real parser reads %r as %s, the specification's parser as %s (core %s)" % (rec["src"], rec["got"], rej["expect"], rec["core"]),
+                         {"kind": "parse", "case": pcases[rej["rec"] - 1], "source": rec["src"], "got": rec["got"], "expect": rej["expect"]})
         if not replay_case:
             # negative control: a parser that swaps the first two arguments of every call must be caught
             sub = [p for p in pcases if p["legal"] and "f(" in p["core"]][:400]
@@ -179,7 +176,7 @@ def run(ctx):
         ev.add("states", r.distinct)
         ev.add("transitions", r.generated)
         nsk = sum(1 for c in cases if c["id"]["u"] != "gen")
-        if nsk < 10 or len(cases) - nsk < (100 if quick else 2000):
+        if nsk < 10 or len(cases) - nsk < (80 if quick else 2000):
             vlib.tool_error("vacuity: only %d skeleton and %d generated programs" % (nsk, len(cases) - nsk))
         if not any(c["nsugar"] <= 6 for c in cases):
             vlib.tool_error("vacuity: no program small enough for the exhaustive family")
@@ -202,13 +199,20 @@ def run(ctx):
             rec = recs[rej["rec"] - 1]
             case = cases[rej["rec"] - 1]
             results = rec["results"]
-            # the smallest offending variant names the defect
+            # the smallest offending variants name the defects: an offending variant is EXPLAINED by a smaller offending one
+            # (same failure class) whose choices it contains; every unexplained one gets a signature of its own
             bad = sorted(rej["bad"], key=lambda b_: (len(diff_keys(results[b_["j"] - 1]["ch"])), b_["j"]))
-            by_why = {}
+            roots = []
             for b_ in bad:
-                by_why.setdefault(b_["why"], b_)
+                d_ = diff_keys(results[b_["j"] - 1]["ch"])
+                if not any(r_["why"] == b_["why"] and all(d_.get(k_) == x_ for k_, x_ in diff_keys(results[r_["j"] - 1]["ch"]).items()) for r_ in roots):
+                    roots.append(b_)
+            by_sig = {}
+            for b_ in roots:
+                by_sig.setdefault(signature(case, b_["why"], results[b_["j"] - 1]["ch"]), b_)
             tops = (preludes[rec["pre"]] if rec["pre"] != "none" else []) + rec["focus"]
-            for why, b_ in by_why.items():
+            for _sig, b_ in by_sig.items():
+                why = b_["why"]
                 res = results[b_["j"] - 1]
                 sig = signature(case, why, res["ch"])
                 small = dict(case, variants=[results[0]["ch"], res["ch"]])
@@ -231,10 +235,10 @@ def run(ctx):
         # and every gap (after the opener, after a separator, before the closer) of each
         ntriv = len(preludes["triv"])
         gaps = {"call": (1, 2, 4), "tuple": (1, 2, 4), "list": (1, 2, 4), "blob": (1, 2, 4), "enum": (1, 2, 4), "blobdecl": (1, 2, 4),
-                "fromuse": (1, 2, 4), "group": (1, 4), "prime": (2,), "op": (2,)}
+                "fromuse": (1, 2, 4), "group": (1, 4), "prime": (2,), "op": (2,), "fnsig": (1, 2, 4), "fnhead": (1,)}
         for cls, bits in gaps.items():
             need += ["gap&%d:%s" % (b_, cls) for b_ in bits]
-            need += ["triv:%s=%d" % (cls, t_) for t_ in range(0 if cls not in ("blob", "enum", "blobdecl") else 1, ntriv)]
+            need += ["triv:%s=%d" % (cls, t_) for t_ in range(0 if cls not in ("blob", "enum", "blobdecl", "fnhead") else 1, ntriv)]
         missing = [k_ for k_ in need if written.get(k_, 0) == 0]
         if missing:
             vlib.tool_error("vacuity: never written in an accepted variant: %s" % missing)
@@ -242,7 +246,8 @@ def run(ctx):
 
         # -------------------------------------------------------------- negative controls on the recorded results
         rnd = random.Random(seed)
-        sub = rnd.sample(cases, min(len(cases), 24))
+        small = [c for c in cases if len(c["variants"]) <= 250]
+        sub = rnd.sample(small, min(len(small), 12))
         ncf = os.path.join(wd, "neg-cases.ndjson")
         vlib.write_ndjson(ncf, sub)
         rejected = 0
@@ -274,7 +279,7 @@ def run(ctx):
            variants_whose_only_difference_is_the_masked_line_number=line_moving,
            exhaustive=(tier == "thorough"),
            rule="programs: 16 skeletons + the shared prelude (all sites) + SyltGen's pairwise-nesting universe, one harness context per "
-                "expression (quick: every 48th pair); variants per program = SyltSurface/MC_Surface!Variants: all legal choice functions over the "
+                "expression (quick: every 64th pair; skeletons exhaustive up to 1024 preference functions); variants per program = SyltSurface/MC_Surface!Variants: all legal choice functions over the "
                 "nested expression's (skeleton: all) sugar sites when <= 6 sites and <= 256 (skeleton: 4096) preference functions, every sugar site "
                 "toggled alone to each option, every layout site toggled alone (programs with <= 40 sites), uniform/strided/mixed patterns of call form, "
                 "tails, loops, parentheses 1/2, comment/blank-line masks, indentation 0/1/2/8/tab, and the layout family: every trivia sequence (<= 3 of comment "
